@@ -45,6 +45,8 @@ def check_bits(bv, spec, fmap, nbits=8, consts=None):
             for i in range(n):
                 if isinstance(m, int):
                     want[lo + i] = (m >> (slo + i)) & 1
+                elif isinstance(m, BV):
+                    want[lo + i] = m.bit(slo + i)
                 else:
                     want[lo + i] = ("b", m, slo + i)
     probs = []
